@@ -38,3 +38,10 @@ H("c14_tracestate", "C14", "seq", ["harness/c14_tracestate.cc"],
   what="real TraceState: all Set/Delete/Get/round-trip histories up to the depth bound from 4 start states (0,1,31,32 members) against an ordered-list model; "
        "FromHeader over a deviation-bounded header generator against an independent W3C member parser",
   design_ref="5/C14")
+
+
+# --- per-property fragments: harness/reg_*.py are executed with H in scope -----------------------
+import glob as _glob, os as _os
+for _f in sorted(_glob.glob(_os.path.join(_os.path.dirname(_os.path.abspath(__file__)), "reg_*.py"))):
+    exec(compile(open(_f).read(), _f, "exec"), {"H": H, "BATCH_SDK": BATCH_SDK})
+H("prebuild_seq", "SELF", "seq", ["harness/prebuild_seq.cc"], sdk=["common", "version", "resource", "trace", "logs", "metrics"], what="warms the object cache")
